@@ -22,7 +22,8 @@ RULE = ("(1) Complete enumeration of cluster-size vectors: K<=3 (quick) / K<=4 (
         "multiples of m, moves only donor->needy, bystanders untouched, greedy donor usage by decreasing spread with ties in "
         "any order, input state byte-identical afterwards on both paths, same RNG state -> same output). "
         "Non-trivial = at least one cluster with fewer than 2 points (a repopulation is actually attempted); distinct by "
-        "SHA-1 of the case.")
+        "SHA-1 of the case."
+        ' min_cluster_size also as a NumPy integer scalar (int8..uint64, multiples far inside the type); enumerations also in a python -O process.')
 ASSUMPTIONS = ["cluster spread is the Frobenius norm of the fitted covariance, given here as 1x1 matrices with prescribed values",
                "K>=1, m>=1, every label in [0,K) (what the main loop hands to the step)"]
 
@@ -86,7 +87,13 @@ def execute_sizes(case, t):
     labels = case.get("labels")
     if labels is None:
         labels = _labels_from_sizes(sizes, seed)
-    obs = rm.check_repopulation(labels, K, m, spreads, seed, t)
+    rm.M_FORM[0] = case.get("m_form")
+    try:
+        obs = rm.check_repopulation(labels, K, m, spreads, seed, t)
+    finally:
+        rm.M_FORM[0] = None
+    if case.get("m_form"):
+        t.cls(f"min_cluster_size_as_{case['m_form']}")
     _classify(obs, t)
 
 
@@ -125,7 +132,13 @@ def random_case(draw):
         m = draw(st.sampled_from([20, 30, 40, 60]))         # thresholds derived from m show only for large m
         sizes = [draw(st.sampled_from([0, 1, 2, 3, 4, 5, m, 2 * m, 2 * m + 3, 3 * m, 150])) for _ in range(K)]
     seed = draw(st.integers(0, 2 ** 32 - 1))
-    return {"K": K, "m": m, "sizes": sizes, "spreads": list(spreads), "seed": seed}
+    # the kind of integer the caller's min_cluster_size is; only where every multiple the algorithm may form (up to 3m, and the
+    # largest cluster size) is far inside the type's range - arithmetic that overflows a caller-chosen narrow type is NumPy's
+    # semantics, not this property's business
+    m_form = draw(st.sampled_from([None, None, None, "int64", "int32", "uint8", "uint16", "uint64", "int8"]))
+    if m_form and 8 * max([m] + sizes) >= np.iinfo(m_form).max:
+        m_form = None
+    return {"K": K, "m": m, "sizes": sizes, "spreads": list(spreads), "seed": seed, "m_form": m_form}
 
 
 # ----------------------------------------------------------------------------- stateful: relabel / repopulate histories
@@ -263,10 +276,10 @@ def fuzz_seeds():
 
 SUBCHECKS = [
     SubCheck(name="enumerate_size_vectors", enumerate=enumerate_cases, execute=execute_sizes, exhaustive=True,
-             budget={"quick": 1, "thorough": 1}, shards={"quick": 8, "thorough": 16}, modes=["jit"],
+             budget={"quick": 1, "thorough": 1}, shards={"quick": 8, "thorough": 16}, modes=["jit", "pyopt"],
              min_nontrivial_fraction=0.3),
     SubCheck(name="random_sizes_ties_seeds", strategy=random_case, execute=execute_sizes,
-             budget={"quick": 3000, "thorough": 80000}, shards={"quick": 3, "thorough": 16}, modes=["jit"],
+             budget={"quick": 3000, "thorough": 80000}, shards={"quick": 3, "thorough": 16}, modes=["jit", "pyopt"],
              min_nontrivial_fraction=0.3),
     SubCheck(name="donor_logic_coverage_guided_fuzz", execute=execute_sizes, fuzz_decode=fuzz_decode, fuzz_seeds=fuzz_seeds,
              budget={"quick": 6000, "thorough": 300000}, shards={"quick": 2, "thorough": 8}, modes=["nojit"],
